@@ -12,6 +12,10 @@ class Unknown(Exception):
     pass
 
 
+class OutOfBounds(AnalysisError):
+    """a concrete index outside a concrete array: not "unknown" but a definite access beyond the object"""
+
+
 def ev(e, env):
     s = e.strip(casts=True)
     k = s.kind
@@ -241,6 +245,8 @@ class Machine(object):
             base, idx = self.ev(s.children[0]), self.ev(s.children[1])
             if isinstance(base, list) and isinstance(idx, int) and 0 <= idx < len(base):
                 return base[idx]
+            if isinstance(base, list) and isinstance(idx, int):
+                raise OutOfBounds("%s: `%s` reads element %d of an object of %d elements" % (self.fn.name, s.nsrc[:40], idx, len(base)))
             raise Unknown(s.nsrc)
         if k == "ConditionalOperator":
             return self.ev(s.children[1]) if self.truth(self.ev(s.children[0])) else self.ev(s.children[2])
@@ -315,6 +321,8 @@ class Machine(object):
                 return int(a != b)
             if isinstance(a, str) or isinstance(b, str):
                 raise Unknown("ordering/arithmetic on the symbolic value in `%s`" % s.nsrc)
+            if isinstance(a, (list, Addr)) or isinstance(b, (list, Addr)):
+                raise Unknown("pointer arithmetic / comparison in `%s` (arrays are values here, pointers into them are not modelled)" % s.nsrc)
             if op == "<":
                 return int(a < b)
             if op == ">":
@@ -360,6 +368,8 @@ class Machine(object):
                 arr[idx] = val
                 self.env[base] = arr
                 return
+            if isinstance(arr, list) and isinstance(idx, int):
+                raise OutOfBounds("%s: `%s` writes element %d of an object of %d elements" % (self.fn.name, t.nsrc[:40], idx, len(arr)))
             raise Unknown(t.nsrc)
         p = t.path()
         if p is None:
